@@ -219,6 +219,18 @@ def run (lines : List String) : List String := Id.run do
           out := out ++ [snapLine se.k.cfg s]
         | none => out := out ++ ["bad-op"]
       | none => out := out ++ ["bad-op"]
+    | ["op", "relstop", i] =>
+      -- the iteration of the repeating step `i` ends, and the stop is accepted while its worker sleeps the
+      -- repeat interval (before it is back at the head of its loop)
+      match sess with
+      | some se =>
+        match step se.k.cfg se.s (.execEnd (natD i) true) with
+        | some s1 =>
+          let s := quiesce se.k 10000 (doStop se.k s1)
+          sess := some { se with s := s }
+          out := out ++ [snapLine se.k.cfg s]
+        | none => out := out ++ ["bad-op"]
+      | none => out := out ++ ["bad-op"]
     | ["op", "rel", i, ok] =>
       match sess with
       | some se =>
